@@ -48,6 +48,10 @@ var c10Menu = func() []c10Member {
 		m = append(m, c10Member{`"asset":{"extras":` + v + `,"version":"2.0"}`, "gltf"})
 		m = append(m, c10Member{`"asset":{"version":"1.0","extras":` + v + `}`, "gltf"})
 	}
+	// empty containers spelled with white space inside (what pretty printers
+	// emit), as an earlier sibling inside the deciding object
+	m = append(m, c10Member{`"log":{"pages":[ ],"version":"1.2"}`, "har"})
+	m = append(m, c10Member{"\"asset\":{\"extras\":[\n],\"e\":{ },\"version\":\"2.0\"}", "gltf"})
 	c10CoreMenu = len(m) // members beyond this index are siblings / decoys
 	for _, d := range []string{
 		`"a":1`, `"b":"s"`, `"c":null`, `"e":[]`, `"f":[1]`, `"g":[[1],[2]]`, `"h":[{"type":"Feature"}]`, `"i":{}`,
@@ -56,6 +60,7 @@ var c10Menu = func() []c10Member {
 		`"asset":{"version":"3.0"}`, `"asset":{"version":2.0}`, `"asset":"2.0"`, `"asset":{"v":{"version":"2.0"}}`,
 		`"type":"feature"`, `"type":1`, `"type":["Feature"]`, `"Type":"Feature"`, `"types":"Feature"`, `"type":"x"`, `"type":{"type":"Feature"}`,
 		`"accessors":[1]`, `"n":[[]]`, `"o":{"p":{"q":[{}]}}`,
+		`"e2":[ ]`, `"i2":{ }`, "\"e3\":[\r\n\t]", `"log":[ ]`, `"asset":[ ]`,
 	} {
 		m = append(m, c10Member{d, ""})
 	}
